@@ -1465,6 +1465,25 @@ impl PhysicalOperator for ExternalSortExec {
         // Clean up
         let _ = std::fs::remove_dir_all(&spill_dir);
 
+        // Top-K: the in-memory path hands `fetch` to SortExec; the spilled
+        // path sorted everything, so cut the sorted output here.
+        let result = match self.fetch {
+            Some(fetch) => {
+                let mut remaining = fetch;
+                let mut kept = Vec::new();
+                for b in result {
+                    if remaining == 0 {
+                        break;
+                    }
+                    let take = b.num_rows().min(remaining);
+                    remaining -= take;
+                    kept.push(if take == b.num_rows() { b } else { b.slice(0, take) });
+                }
+                kept
+            }
+            None => result,
+        };
+
         Ok(Box::pin(stream::iter(result.into_iter().map(Ok))))
     }
 
@@ -1658,11 +1677,27 @@ impl ExternalSortExec {
                 let col_b = evaluate_expr(batch_b, &sort_expr.expr).ok();
 
                 if let (Some(a), Some(b)) = (col_a, col_b) {
-                    let cmp = compare_array_values(&a, row_a, &b, row_b);
-                    let cmp = if sort_expr.direction == crate::planner::SortDirection::Desc {
-                        cmp.reverse()
-                    } else {
-                        cmp
+                    // Same ordering the runs were sorted with (sort_batch):
+                    // direction and NULL placement are independent, and every
+                    // arrow type that lexsort accepts compares here too.
+                    let opts = arrow::compute::SortOptions {
+                        descending: sort_expr.direction == crate::planner::SortDirection::Desc,
+                        nulls_first: matches!(
+                            sort_expr.nulls,
+                            crate::planner::NullOrdering::NullsFirst
+                        ),
+                    };
+                    let cmp = match arrow_ord::ord::make_comparator(a.as_ref(), b.as_ref(), opts)
+                    {
+                        Ok(c) => c(row_a, row_b),
+                        Err(_) => {
+                            let cmp = compare_array_values(&a, row_a, &b, row_b);
+                            if opts.descending {
+                                cmp.reverse()
+                            } else {
+                                cmp
+                            }
+                        }
                     };
                     if cmp != Ordering::Equal {
                         return cmp;
